@@ -130,9 +130,18 @@ class EqualityComparer:
     def map_foreign(self, expr1: object, expr2: object) -> bool:
         raise NotImplementedError(type(expr1).__name__)
 
+    def _rec_shape(self, shape1: tuple[object, ...], shape2: tuple[object, ...]) -> bool:
+        # Array-valued shape components go through self.rec (memoized); a plain
+        # tuple comparison would start a fresh comparer for every component.
+        return (len(shape1) == len(shape2)
+                and all(self.rec(dim1, dim2)
+                        if (isinstance(dim1, Array) and isinstance(dim2, Array))
+                        else dim1 == dim2
+                        for dim1, dim2 in zip(shape1, shape2, strict=True)))
+
     def map_placeholder(self, expr1: Placeholder, expr2: Placeholder) -> bool:
         return (expr1.name == expr2.name
-                and expr1.shape == expr2.shape
+                and self._rec_shape(expr1.shape, expr2.shape)
                 and expr1.dtype == expr2.dtype
                 and expr1.tags == expr2.tags
                 and expr1.axes == expr2.axes
@@ -227,7 +236,7 @@ class EqualityComparer:
         return self._map_index_base(expr1, expr2)
 
     def map_reshape(self, expr1: Reshape, expr2: Reshape) -> bool:
-        return (expr1.newshape == expr2.newshape
+        return (self._rec_shape(expr1.newshape, expr2.newshape)
                 and expr1.order == expr2.order
                 and self.rec(expr1.array, expr2.array)
                 and expr1.tags == expr2.tags
@@ -307,7 +316,7 @@ class EqualityComparer:
             self, expr1: DistributedRecv, expr2: DistributedRecv) -> bool:
         return (expr1.src_rank == expr2.src_rank
                 and expr1.comm_tag == expr2.comm_tag
-                and expr1.shape == expr2.shape
+                and self._rec_shape(expr1.shape, expr2.shape)
                 and expr1.dtype == expr2.dtype
                 and expr1.tags == expr2.tags
                 and expr1.axes == expr2.axes
